@@ -69,6 +69,9 @@ def handler(job):
             pim.pixel_size = op[1]
         elif k == "fit":
             d = [np.array(x, dtype=float) for x in op[1]]
+            kind = job.get("fitdtype")
+            if kind and all(x.size and np.all(x == np.round(x)) and x.min() >= np.iinfo(kind).min and x.max() <= np.iinfo(kind).max for x in d):
+                d = [x.astype(kind) for x in d]        # integer-valued data in an integer dtype (8-bit grey levels, counters)
             if len(op) > 4 and op[4]:      # the fitting entry point that also renders
                 pim.fit_transform(d if len(d) > 1 or op[3] else d[0], skew=bool(op[2]))
             else:
